@@ -619,6 +619,10 @@ func (p *parser) parseEscape(opts CharsetOptions, standalone bool) charset {
 					return nil
 				}
 				r = r<<4 + d
+				if r > unicode.MaxRune {
+					p.error("invalid escape sequence (exceeds unicode.MaxRune)", start, p.scanOffset)
+					return nil
+				}
 				p.next()
 				if p.ch == '}' {
 					break
@@ -633,6 +637,10 @@ func (p *parser) parseEscape(opts CharsetOptions, standalone bool) charset {
 					return nil
 				}
 				r = r<<4 + d
+				if r > unicode.MaxRune {
+					p.error("invalid escape sequence (exceeds unicode.MaxRune)", start, p.scanOffset)
+					return nil
+				}
 				p.next()
 			}
 		}
